@@ -312,6 +312,13 @@ def run(run, model):
     run.rule("R08.9", "captured variables get distinct environment fields (shared with C19 R19.6)")
     run.try_rule(c19.r19_6, model)
     run.try_rule(r08_7, model)
+    from rules import c01
+    from lib import passes as P
+    run.rule("R08.11", "the capture walk visits every sub-term and traverses child collections whole (shared with C01 R01.3, restricted to collect_captured)")
+    try:
+        run.try_rule(c01.r01_3, model, P.discover(model, include_pprint=False), (r"collect_captured",))
+    except AnalysisIncomplete as e:
+        run.skipped.append({"rule_fn": "r01_3", "reason": str(e)})
     run.try_rule(r08_8, model)
     run.try_rule(r08_5, model)
     from rules import c07
